@@ -91,6 +91,10 @@ def build_state(ch, statuses, with_bytes: bool, nreaders=None):
                 g.noseg.add(key)  # the writer has not created its segment (yet)
         elif st in (DS.in_memory, DS.paging_out):
             w.segs[shmid] = stubs_shm.Buf(size, content)
+        if st in (DS.created, DS.in_memory, DS.paging_out) and with_bytes and ch.flag(f"stalefile{i}"):
+            # page-in never removes the spill file, and a purged key that is written again gets the same shmid:
+            # a file with older bytes may be lying around
+            w.files[f"/fake/{shmid}"] = stubs_shm.Buf(ch.int(f"oldsize{i}", 1, None), [ch.int(f"old{i}0", 0, 255), ch.int(f"old{i}1", 0, 255)])
         elif st in (DS.on_disk, DS.paged_in):
             w.files[f"/fake/{shmid}"] = stubs_shm.Buf(size, content)
     ch.assume(resident <= capacity)
@@ -438,6 +442,44 @@ class ShmLiveness(Harness):
         ch.note("nontrivial", needed_eviction)
 
 
+class ShmAtExit(Harness):
+    """C05 (Python level): Manager.atexit from an arbitrary valid state leaves no shared-memory segment behind."""
+
+    name = "shm-atexit"
+    properties = ("C05",)
+    engine = "E1-crosshair"
+    rule = "one path = pre-state shape (statuses, readers, delayed purges, which writers created their segment); non-trivial = some segment exists before exit"
+    assumptions = ["pre-state satisfies the representation invariant; pending disk jobs never run after exit"]
+    outside = ["segments of clients that died between allocate and creating the segment cannot exist; real /dev/shm"]
+
+    def shards(self, tier):
+        n = 2 if tier == "quick" else 3
+        return [{"statuses": list(sts)} for k in range(0, n + 1) for sts in itertools.product(range(5), repeat=k) if list(sts) == sorted(sts)]
+
+    def budget(self, tier):
+        return 60.0
+
+    def bounds(self, tier):
+        return {"datasets": 2 if tier == "quick" else 3, "integers": "unbounded"}
+
+    def functions(self):
+        return [dataset.Manager.atexit, dataset.Manager.purge]
+
+    def body(self, ch, params):
+        statuses = [STATUSES[i] for i in params["statuses"]]
+        mgr, w, g = build_state(ch, statuses, False)
+        mgr.disk.atexit = lambda: None
+        had = len(w.segs)
+        try:
+            mgr.atexit()
+        except Exception as e:
+            raise Violation("atexit-raised", f"{type(e).__name__}: {e}")
+        ch.note("nontrivial", had > 0)
+        if w.segs:
+            raise Violation("segment-left-behind-at-exit", f"{sorted(w.segs)} still registered after Manager.atexit")
+
+
+register(ShmAtExit())
 register(ShmStep("shm-step", ("C08",), with_bytes=False, strong_lock=False, n_quick=2, n_thorough=3, steps_thorough=2))
 register(ShmStep("shm-step-bytes", ("C09",), with_bytes=True, strong_lock=True, n_quick=2, n_thorough=3, steps_thorough=1))
 register(ShmLiveness())
